@@ -35,7 +35,14 @@ type C19Case struct {
 	CredPasses []string `json:"cred_passes,omitempty"`    // passwords of --credentials entries (first: the origin, second: the upstream proxy host, third: *:*)
 	KeyFlags   []string `json:"key_flags,omitempty"`      // subset of tls, mitm, cacert: supplied as data: URIs
 	JSONLog    bool     `json:"json_log"`
+	// ProxyPlain: --proxy is given without userinfo; the upstream's password then comes from --credentials (second entry).
+	ProxyPlain bool `json:"proxy_plain,omitempty"`
+	// Fails: exchanges that fail at the upstream hop, made after the diagnostics of the successful phase were collected;
+	// only the error responses they produce are examined (log lines of failed exchanges are outside the property).
+	Fails []string `json:"fails,omitempty"`
 }
+
+var c19FailKinds = []string{"connect-close", "connect-garbage", "connect-403", "connect-407", "get-close", "get-garbage", "connect-dead", "get-dead"}
 
 var c19Specials = []string{"%", ":", "/", "?", "#", "[", "]", "+", "&", "=", " ", "\"", "'", "\\", "é", "$", "!", "~", "*", ";", "%41", "%%", "..", "<>", "|"}
 
@@ -76,7 +83,63 @@ func genC19(t *rapid.T) C19Case {
 			c.KeyFlags = append(c.KeyFlags, k)
 		}
 	}
+	if c.ProxyPass == "" && len(c.CredPasses) >= 2 {
+		c.ProxyPlain = rapid.Bool().Draw(t, "proxyplain")
+	}
+	if rapid.Bool().Draw(t, "withfails") {
+		c.Fails = rapid.SliceOfNDistinct(rapid.SampledFrom(c19FailKinds), 1, 4, rapid.ID[string]).Draw(t, "fails")
+	}
 	return c
+}
+
+// lockedBuf collects the output of the running binary; it can be read while the process still writes.
+type lockedBuf struct {
+	mu sync.Mutex
+	b  bytes.Buffer
+}
+
+func (l *lockedBuf) Write(p []byte) (int, error) {
+	l.mu.Lock()
+	defer l.mu.Unlock()
+	return l.b.Write(p)
+}
+
+func (l *lockedBuf) String() string {
+	l.mu.Lock()
+	defer l.mu.Unlock()
+	return l.b.String()
+}
+
+// c19Upstream is the upstream proxy of the C19 laboratory: it serves everything except the hosts *.c19fail.test,
+// for which it misbehaves in the way the host name says.
+func c19Upstream() func(*PeerConn) {
+	tunnel := TunnelTo(nil)
+	ok := proxyResponder("UP")
+	misbehave := func(pc *PeerConn, target string) bool {
+		switch {
+		case strings.HasPrefix(target, "close.c19fail.test"):
+		case strings.HasPrefix(target, "garbage.c19fail.test"):
+			pc.Write([]byte("\x00\x01garbage that is not HTTP\r\n\r\n"))
+		case strings.HasPrefix(target, "deny.c19fail.test"):
+			pc.Write([]byte("HTTP/1.1 403 Forbidden\r\nContent-Length: 6\r\nConnection: close\r\n\r\ndenied"))
+		case strings.HasPrefix(target, "auth.c19fail.test"):
+			pc.Write([]byte("HTTP/1.1 407 Proxy Authentication Required\r\nProxy-Authenticate: Basic realm=\"up\"\r\nContent-Length: 0\r\nConnection: close\r\n\r\n"))
+		default:
+			return false
+		}
+		return true
+	}
+	return HTTPHandler(func(pc *PeerConn, r *RecordedReq) ([]byte, bool) {
+		if misbehave(pc, r.Msg.First("Host")) {
+			return nil, true
+		}
+		return ok(pc, r)
+	}, func(pc *PeerConn, r *RecordedReq) {
+		if misbehave(pc, r.Msg.Target) {
+			return
+		}
+		tunnel(pc, r)
+	})
 }
 
 type c19Env struct {
@@ -105,7 +168,7 @@ func getEnv19() (*c19Env, error) {
 			env19Err = err
 			return
 		}
-		if e.upstream, err = StartPeer("upstream", "127.0.0.4", nil, HTTPHandler(proxyResponder("UP"), TunnelTo(nil))); err != nil {
+		if e.upstream, err = StartPeer("upstream", "127.0.0.4", nil, c19Upstream()); err != nil {
 			env19Err = err
 			return
 		}
@@ -170,6 +233,11 @@ func runC19(c C19Case) (fails []vstat.Failure) {
 		add("proxy", "http://pxuser:"+c.ProxyPass+"@"+e.upstream.Addr)
 		secrets = append(secrets, secretSpec{"proxy", "pxuser", c.ProxyPass, false})
 	}
+	upstreamOn := c.ProxyPass != ""
+	if c.ProxyPlain && c.ProxyPass == "" && len(c.CredPasses) >= 2 {
+		add("proxy", "http://"+e.upstream.Addr)
+		upstreamOn = true
+	}
 	var creds []string
 	for i, p := range c.CredPasses {
 		hp := []string{e.origin.Addr, e.upstream.Host + ":*", "*:*"}[i]
@@ -230,7 +298,7 @@ func runC19(c C19Case) (fails []vstat.Failure) {
 	}
 	cmd := exec.Command(e.bin, args...)
 	cmd.Env = env
-	var stdout, stderr bytes.Buffer
+	var stdout, stderr lockedBuf
 	cmd.Stdout, cmd.Stderr = &stdout, &stderr
 	if err := cmd.Start(); err != nil {
 		return []vstat.Failure{vstat.Failf("C19:harness", "start: %v", err)}
@@ -355,13 +423,73 @@ func runC19(c C19Case) (fails []vstat.Failure) {
 		}
 		tc.Close()
 	}
-	stop()
-	capture("stdout", stdout.String())
-	capture("stderr", stderr.String())
-	if logPath != "" {
-		if b, err := os.ReadFile(logPath); err == nil {
-			capture("log file", string(b))
+	collectLogs := func(when string) {
+		capture("stdout"+when, stdout.String())
+		capture("stderr"+when, stderr.String())
+		if logPath != "" {
+			if b, err := os.ReadFile(logPath); err == nil {
+				capture("log file"+when, string(b))
+			}
 		}
+	}
+	if len(c.Fails) > 0 {
+		// the diagnostics of the successful phase are collected first: what the binary logs about the failing
+		// exchanges below is outside the property, the error responses it returns are inside
+		time.Sleep(150 * time.Millisecond)
+		collectLogs(" (before the failing exchanges)")
+		authHdr := ""
+		if c.BasicAuth != "" {
+			authHdr = "Proxy-Authorization: Basic " + base64.StdEncoding.EncodeToString([]byte("bauser:"+c.BasicAuth)) + "\r\n"
+		}
+		for _, k := range c.Fails {
+			method, how, _ := strings.Cut(k, "-")
+			host := map[string]string{"close": "close.c19fail.test", "garbage": "garbage.c19fail.test", "403": "deny.c19fail.test", "407": "auth.c19fail.test"}[how]
+			if how == "dead" {
+				if upstreamOn {
+					continue // a dead target behind a working upstream is the upstream's failure, not the binary's
+				}
+				host = "127.0.0.9"
+			} else if !upstreamOn {
+				continue
+			}
+			conn, br, err := dialProxy()
+			if err != nil {
+				continue
+			}
+			var rmethod string
+			if method == "connect" {
+				rmethod = "CONNECT"
+				port := "443"
+				if how == "dead" {
+					_, port, _ = net.SplitHostPort(FreeAddr("127.0.0.9"))
+				}
+				fmt.Fprintf(conn, "CONNECT %s:%s HTTP/1.1\r\nHost: %s:%s\r\n%s\r\n", host, port, host, port, authHdr)
+			} else {
+				rmethod = "GET"
+				hp := host
+				if how == "dead" {
+					hp = FreeAddr("127.0.0.9")
+				}
+				fmt.Fprintf(conn, "GET http://%s/c19fail HTTP/1.1\r\nHost: %s\r\n%sConnection: close\r\n\r\n", hp, hp, authHdr)
+			}
+			m, err := ReadResponse(br, rmethod)
+			conn.Close()
+			if err != nil {
+				continue
+			}
+			st.Class(fmt.Sprintf("error-response-%s-%d", k, m.Status))
+			var sb strings.Builder
+			sb.WriteString(m.StartLine + "\n")
+			for _, f := range m.Fields {
+				sb.WriteString(f.Name + ": " + f.Value + "\n")
+			}
+			sb.Write(m.Body)
+			capture(fmt.Sprintf("error response (%d) to a %s whose upstream hop fails (%s)", m.Status, rmethod, how), sb.String())
+		}
+		stop()
+	} else {
+		stop()
+		collectLogs("")
 	}
 	for _, cp := range captured {
 		fails = append(fails, scanSecrets("C19:leak", cp.what, cp.text, secrets)...)
@@ -437,6 +565,12 @@ func classifyC19(c C19Case) (bool, string, []string) {
 		cls = append(cls, "key-"+k)
 	}
 	cls = append(cls, fmt.Sprintf("secret-flags=%d", n))
+	if c.ProxyPlain {
+		cls = append(cls, "upstream-password-from-credentials")
+	}
+	for _, k := range c.Fails {
+		cls = append(cls, "fail-"+k)
+	}
 	return special || n >= 2, fmt.Sprintf("%+v", c), cls
 }
 
